@@ -21,3 +21,9 @@ def lemmas():
     from contracts import syntactic
 
     return syntactic.analysis_is_effect_free()
+
+
+def bounded(tier, seed, pr):
+    from pyvc.boundedrun import run_bounded
+
+    return [run_bounded(pr, "b_overlap.py", "prefix_overlap_detection")]
